@@ -9,6 +9,7 @@ excluded from the comparison, never reported.
 """
 from __future__ import annotations
 
+import posixpath
 import re
 import subprocess
 
@@ -140,11 +141,65 @@ _DIRECTIVE = re.compile(r"\s*#\s*(\w+)\s*(.*)$")
 _DEFINE = re.compile(r"([A-Za-z_]\w*)(\(([^)]*)\))?\s?(.*)$")
 
 
-def run(lines, init_defs, headers=None, _defs=None, _chain=()):
-    """Process `lines`.  Returns (active: list[bool] — whether each line is in an
-    active region; directive lines are reported as False —, final macro table
-    name -> body | (params, body)).  `headers` maps the names usable in `#include "name"` to their lines; an
-    included header is processed in place with the current macro table (a header that includes itself is Invalid)."""
+def resolve_include(name, cur_dir, headers):
+    """The key of `headers` that `#include "name"` written in a file of directory `cur_dir` opens, or None.  Keys and
+    `cur_dir` are '/'-separated paths relative to the directory of the main file ('' is that directory).  Like cpp
+    (and the operating system) the name is taken relative to the directory of the *including file*; every directory
+    that is stepped through - also one that a later `..` leaves again - has to exist, i.e. be a prefix of some key."""
+    dirs = {""}
+    for k in headers:
+        parts = k.split("/")[:-1]
+        for n in range(1, len(parts) + 1):
+            dirs.add("/".join(parts[:n]))
+    if name.startswith("/") or name.endswith("/"):
+        return None
+    at = [c for c in cur_dir.split("/") if c]
+    comps = name.split("/")
+    for c in comps[:-1]:
+        if c in ("", "."):
+            continue
+        if c == "..":
+            if not at:
+                return None        # above the directory of the main file: not part of the model
+            at.pop()
+        else:
+            at.append(c)
+        if "/".join(at) not in dirs:
+            return None
+    if comps[-1] in (".", ".."):
+        return None
+    key = posixpath.join("/".join(at), comps[-1])
+    return key if key in headers else None
+
+
+def splice(lines):
+    """Physical lines -> [(first index, number of physical lines, logical text)].  A *directive* line that ends in a
+    backslash continues on the next line (translation phase 2: backslash-newline is deleted, whatever the
+    directive and whether or not its region is active).  Code lines are left alone."""
+    out, k = [], 0
+    while k < len(lines):
+        ln, n = lines[k], 1
+        if _DIRECTIVE.match(ln):
+            while ln.endswith("\\") and k + n < len(lines):
+                ln = ln[:-1] + lines[k + n]
+                n += 1
+            if ln.endswith("\\"):
+                raise Invalid("backslash at the end of the file")
+        out.append((k, n, ln))
+        k += n
+    return out
+
+
+def run(lines, init_defs, headers=None, _defs=None, _chain=(), redefine=True, events=None, _dir=""):
+    """Process `lines`.  Returns (active: list[bool] - whether each line is in an
+    active region; directive lines and their continuation lines are reported as False -, final macro table
+    name -> body | (params, body)).  `headers` maps the paths usable in `#include "path"` (relative to the directory
+    of the main file, '/'-separated) to their lines; an included header is processed in place with the current macro
+    table (a header that includes itself is Invalid); a path is looked up relative to the directory of the file the
+    directive is written in.
+    A `#define` of a name that is already defined *replaces* the definition (cpp warns and goes on);
+    `redefine=False` makes a redefinition with a different body Invalid instead (the ISO constraint), for families
+    that leave it out.  `events`, if a list, receives ("redefine", name) for every such replacement."""
     defs = dict(init_defs) if _defs is None else _defs
     stack = []  # [parent_active, taken_now, was_taken, seen_else]
     active = []
@@ -152,12 +207,12 @@ def run(lines, init_defs, headers=None, _defs=None, _chain=()):
     def is_active():
         return all(s[1] for s in stack)
 
-    for ln in lines:
+    for _, nphys, ln in splice(lines):
         m = _DIRECTIVE.match(ln)
         if not m:
             active.append(is_active())
             continue
-        active.append(False)
+        active.extend([False] * nphys)
         kw, rest = m.group(1), m.group(2).strip()
         if kw in ("if", "ifdef", "ifndef"):
             parent = is_active()
@@ -200,19 +255,28 @@ def run(lines, init_defs, headers=None, _defs=None, _chain=()):
                 name, body = d.group(1), d.group(4).strip()
                 val = (tuple(p.strip() for p in d.group(3).split(",")) if d.group(3).strip() else (), body) if d.group(2) else body
                 if name in defs and defs[name] != val:
-                    raise Invalid("redefinition with a different body")
+                    if not redefine:
+                        raise Invalid("redefinition with a different body")
+                    if events is not None:
+                        events.append(("redefine", name))
+                    # the new definition takes the place of the old one in the table
                 defs[name] = val
         elif kw == "undef":
             if is_active():
-                defs.pop(rest, None)
+                # (tokens after the name are ignored with a warning)
+                u = re.match(r"[A-Za-z_]\w*", rest)
+                if not u:
+                    raise Invalid("bad #undef")
+                defs.pop(u.group(0), None)
         elif kw == "include" and headers is not None:
             if is_active():
                 im = re.fullmatch(r'"([^"]+)"', rest)
-                if not im or im.group(1) not in headers:
+                key = resolve_include(im.group(1), _dir, headers) if im else None
+                if key is None:
                     raise Invalid("unknown header")
-                if im.group(1) in _chain:
+                if key in _chain:
                     raise Invalid("header includes itself")
-                run(headers[im.group(1)], None, headers, defs, _chain + (im.group(1),))
+                run(headers[key], None, headers, defs, _chain + (key,), redefine, events, posixpath.dirname(key))
         else:
             pass
     if stack:
@@ -285,16 +349,67 @@ def _subst_fn(line, name, params, body):
 
 
 # -------------------------------------------------------------- GNU cpp
-def gnu_cpp_active(lines, init_defs, timeout=20):
-    """Which non-directive lines survive GNU cpp; None if cpp reports an error."""
-    marked = []
-    for k, ln in enumerate(lines):
-        marked.append(ln if _DIRECTIVE.match(ln) else f"@@{k}@@")
+def _gnu_args(init_defs):
     args = ["cpp", "-P", "-undef", "-nostdinc", "-w"]
     for n, v in init_defs.items():
         args.append(f"-D{n}={v}")
-    p = subprocess.run(args, input="\n".join(marked) + "\n", capture_output=True, text=True, timeout=timeout)
+    return args
+
+
+def _marked(lines):
+    """Code lines replaced by markers; directives and their continuation lines verbatim."""
+    marked = []
+    for k, n, _ in splice(lines):
+        if _DIRECTIVE.match(lines[k]):
+            marked.extend(lines[k:k + n])
+        else:
+            marked.append(f"@@{k}@@")
+    return marked
+
+
+def gnu_cpp_active(lines, init_defs, timeout=20, cwd=None):
+    """Which non-directive lines survive GNU cpp; None if cpp reports an error.  The text is read from standard
+    input: `#include "..."` is looked up relative to `cwd`."""
+    try:
+        marked = _marked(lines)
+    except Invalid:
+        return None
+    p = subprocess.run(_gnu_args(init_defs), input="\n".join(marked) + "\n", capture_output=True, text=True,
+                       timeout=timeout, cwd=cwd)
     if p.returncode != 0:
         return None
     kept = {int(x) for x in re.findall(r"@@(\d+)@@", p.stdout)}
     return [(k in kept) for k in range(len(lines))]
+
+
+def gnu_cpp_run(lines, init_defs, timeout=20, cwd=None):
+    """(active, table) of GNU cpp in one process: `-dD` repeats every #define / #undef it executes between the
+    surviving lines; the table is in the form of `run` (bodies with single blanks, the predefined `__...` names left
+    out).  None if cpp reports an error."""
+    try:
+        marked = _marked(lines)
+    except Invalid:
+        return None
+    p = subprocess.run(_gnu_args(init_defs) + ["-dD"], input="\n".join(marked) + "\n", capture_output=True, text=True,
+                       timeout=timeout, cwd=cwd)
+    if p.returncode != 0:
+        return None
+    table, kept = {}, set()
+    for ln in p.stdout.splitlines():
+        m = re.match(r"#define ([A-Za-z_]\w*)(\(([^)]*)\))?\s?(.*)$", ln)
+        u = re.match(r"#undef ([A-Za-z_]\w*)", ln)
+        if m and not m.group(1).startswith("__"):
+            body = " ".join(m.group(4).split())
+            table.pop(m.group(1), None)
+            table[m.group(1)] = ((tuple(x.strip() for x in m.group(3).split(",")) if m.group(3).strip() else (), body)
+                                 if m.group(2) else body)
+        elif u:
+            table.pop(u.group(1), None)
+        else:
+            kept.update(int(x) for x in re.findall(r"@@(\d+)@@", ln))
+    return [(k in kept) for k in range(len(lines))], table
+
+
+def normal_table(defs):
+    """A table of `run` with the blanks of every body normalised like `gnu_cpp_run` does."""
+    return {k: ((v[0], " ".join(v[1].split())) if isinstance(v, tuple) else " ".join(v.split())) for k, v in defs.items()}
